@@ -31,7 +31,7 @@ def run(prog, rep):
                ("shares", "raises"): "C07.refusals", ("cumsum", "raises"): "C07.refusals"}
     for a in ("sum_to", "sum_over", "cast_to", "cast_values_to", "get_shares_over", "cumsum"):
         prog.method("FlodymArray", a)
-    run_array_property(prog, rep, "C07", ["reduce", "reduce@uniform"], aspects)
+    run_array_property(prog, rep, "C07", ["reduce", "reduce@uniform", "reduce@uniform+samenames"], aspects)
     rep.rules["C07.by-label"]["floor"] = 500
     rep.rules["C07.refusals"]["floor"] = 60
     if rep.exhaustive is None:
